@@ -1,0 +1,12 @@
+//go:build !verif
+
+// Package verifhook provides named points inside a few functions where an
+// external verification harness can yield or stop a member. Without the
+// "verif" build tag the points compile to nothing.
+package verifhook
+
+// Enabled is false unless the binary is built with the "verif" tag.
+const Enabled = false
+
+// Point does nothing without the "verif" tag.
+func Point(name string, args ...string) {}
